@@ -11,7 +11,9 @@ def run(chk):
     chk.assumptions.append('E-MIR: SymbolicContext::transfer_from returns None exactly when the BDD depends on an auxiliary variable (documented contract)')
     core = G.core_plain(['v0', 'v1'])[::1 if thorough else 2] + [f for f in c02.family() if not (S.labels(f)[0] | S.labels(f)[1]) & {'empty', 'full'}][::1 if thorough else 3]
     rnd = [G.random_formula(chk.rng, 3, ['v0', 'v1'], wild=('w',), doms=('d',)) for _ in range(60 if thorough else 10)]
-    forms = core + rnd
+    P0, P1 = ('prop', 'v0'), ('prop', 'v1')
+    taut = [('true',), ('EF', ('true',)), ('AG', ('or', P0, ('not', P0))), ('forall', 'x', None, ('or', ('EF', ('var', 'x')), ('not', ('EF', ('var', 'x'))))), ('iff', P0, P0), ('false',), ('not', ('true',))]
+    forms = taut + core + rnd
     for inst in UC.instances(['U2', 'C2'] + (['M2'] if thorough else [])):
         for f in forms:
             d = S.quant_depth(f)
@@ -33,6 +35,7 @@ def run(chk):
                     else: chk.obligation(name + ' (does not reproduce)', 'E-UNI', 'inconclusive')
                 else: chk.obligation(name, 'E-UNI', 'timeout', v.seconds)
                 if k == d: UC.check_equiv(chk, 'C15', sess, f, san, name + ' sanitised == semantics', 'sanitize', rdec=sess.dec_plain)
+                UC.check_inside_unit(chk, 'C15', sess, f, san, name + ' sanitised result inside the unit set', 'sanitize-outside-unit', rdec=sess.dec_plain)
                 comp = sess.ans.get('plain_compat', [None])[0]
                 ok = bool(comp) and comp.get('same_num_vars') is True
                 chk.obligation(name + ' usable with a graph built by SymbolicAsyncGraph::new', 'native', 'holds' if ok else 'violated', 0.0, False)
